@@ -35,6 +35,20 @@ def lib2d_batch(*paths):
     for k, path in enumerate(paths):
         b = BpSeq.from_file(path)
         print(f"### {k}")
+        try:
+            _lib2d_section(b)
+        except Exception as e:
+            print("raised", type(e).__name__)
+        import pulp
+
+        try:
+            print("broken-solver " + BpSeq.from_file(path).convert_to_dot_bracket(pulp.COIN_CMD(path="/nonexistent/vmon/cbc", msg=False)).structure)
+        except Exception as e:
+            print("broken-solver raised " + type(e).__name__)
+
+
+def _lib2d_section(b):
+    if True:
         print("optimal " + b.dot_bracket.structure)
         print("fcfs " + b.fcfs.structure)
         for d in b.all_dot_brackets:
@@ -44,13 +58,6 @@ def lib2d_batch(*paths):
                 print(str(e))
         print(str(b.without_isolated()))
         print(str(b.without_pseudoknots()))
-        # ... and a conversion with a broken back-end (binary missing) before the next input is handled
-        import pulp
-
-        try:
-            print("broken-solver " + BpSeq.from_file(path).convert_to_dot_bracket(pulp.COIN_CMD(path="/nonexistent/vmon/cbc", msg=False)).structure)
-        except Exception as e:
-            print("broken-solver raised " + type(e).__name__)
 
 
 def writecif(path):
@@ -94,12 +101,23 @@ def transform_batch(*paths):
     for k, path in enumerate(paths):
         text = open(path).read()
         print(f"### {k}")
-        out, mapping = transformer.replace_value(text, "atom_site", "auth_asym_id", alphabet)
-        print("replace", hashlib.sha256(out.encode()).hexdigest(), sorted(mapping.items()))
-        out2 = transformer.copy_from_to(text, "atom_site", "label_asym_id", "auth_asym_id")
-        print("copy", hashlib.sha256(out2.encode()).hexdigest())
-        out3, mapping3 = transformer.replace_value(text, "atom_site", "label_seq_id", alphabet)
-        print("replace-seq", hashlib.sha256(out3.encode()).hexdigest(), len(mapping3))
+        # an input that makes one call raise (more distinct values than symbols) must not end the batch: the
+        # exception type is part of that input's section, in the batch and in the single run alike
+        try:
+            out, mapping = transformer.replace_value(text, "atom_site", "auth_asym_id", alphabet)
+            print("replace", hashlib.sha256(out.encode()).hexdigest(), sorted(mapping.items()))
+        except Exception as e:
+            print("replace raised", type(e).__name__)
+        try:
+            out2 = transformer.copy_from_to(text, "atom_site", "label_asym_id", "auth_asym_id")
+            print("copy", hashlib.sha256(out2.encode()).hexdigest())
+        except Exception as e:
+            print("copy raised", type(e).__name__)
+        try:
+            out3, mapping3 = transformer.replace_value(text, "atom_site", "label_seq_id", alphabet)
+            print("replace-seq", hashlib.sha256(out3.encode()).hexdigest(), len(mapping3))
+        except Exception as e:
+            print("replace-seq raised", type(e).__name__)
 
 
 def lib3d_batch(*paths):
@@ -108,9 +126,13 @@ def lib3d_batch(*paths):
     from rnapolis.util import handle_input_file
 
     for k, path in enumerate(paths):
-        s = read_3d_structure(handle_input_file(path), None)
-        s2d, dbs = extract_secondary_structure(s, None, False, True)
         print(f"### {k}")
+        try:
+            s = read_3d_structure(handle_input_file(path), None)
+            s2d, dbs = extract_secondary_structure(s, None, False, True)
+        except Exception as e:
+            print("raised", type(e).__name__)
+            continue
         print(s2d.bpseq)
         print(s2d.extendedDotBracket)
         print("\n".join(dbs))
